@@ -79,6 +79,9 @@ def probe_module(m, rng_seeds, nvals):
             recs.append({"cls": "crash", "stage": "rt", "tn": tn, "syn": s, "val": v, "cmd": l, "rc": rc, "kind": k, "frames": fr, "err": err[-1800:], "facts": facts.get((tn, v))})
             continue
         st = o.split("=", 1)[1] if "=" in o else o
+        if st.startswith("NL:"):
+            recs.append({"cls": "fail", "tn": tn, "syn": s, "val": v, "cmd": l, "status": "NL", "facts": facts.get((tn, v))})
+            st = st[3:]
         if st == "OK":
             nok += 1
             continue
@@ -167,7 +170,11 @@ def buckets(paths):
         print("   often : %s" % [(x, c) for x, c in kc.most_common(8) if c < len(rs)])
         small = sorted(rs, key=lambda r: len(widefind.render(r["ast"])) + len(r.get("val") or ""))[:3]
         for r in small:
-            print("   e.g. [%s %s] %s ::= %s   val=%s" % (r["default"], r["mod"], r["tn"], widefind.render(r["ast"])[:300], (r.get("val") or "")[:80]))
+            print("   e.g. [%s %s] %s ::= %s   val=%s facts=%s" % (r["default"], r["mod"], r["tn"], widefind.render(r["ast"])[:300], (r.get("val") or "")[:80], r.get("facts")))
+            m = {"asts": r["asts"]}
+            refs = sorted(set(n["name"] for n, p in widefind.walk(m, r["ast"], {r["tn"]}) if n["k"] == "REF"))
+            for rn in refs:
+                print("          %s ::= %s" % (rn, widefind.render(r["asts"][rn])[:300]))
 
 
 if __name__ == "__main__":
